@@ -58,11 +58,21 @@ Value& HASHExpression::value(Context & ctx) const
       break;
     case Type::INTEGER:
       if (!a1.isNull())
+      {
+        /* number of buckets [1..n]: zero would divide by zero, and larger
+         * values do not fit the 32 bits hash */
+        if (*a1.integer() < 1 || *a1.integer() > Integer(UINT32_MAX))
+          throw RuntimeError(EXC_RT_OUT_OF_RANGE);
         max_size = (uint32_t)*a1.integer();
+      }
       break;
     case Type::NUMERIC:
       if (!a1.isNull())
+      {
+        if (!(*a1.numeric() >= 1.0 && *a1.numeric() <= Numeric(UINT32_MAX)))
+          throw RuntimeError(EXC_RT_OUT_OF_RANGE);
         max_size = (uint32_t)*a1.numeric();
+      }
       break;
     default:
       throw RuntimeError(EXC_RT_FUNC_ARG_TYPE_S, KEYWORDS[oper]);
